@@ -112,6 +112,10 @@ def draw_table(rng, spec, max_rows=8, bad_rate=0.15, ragged_rate=0.08):
     table = []
     for _ in range(rng.randint(0, max_rows)):
         row = [draw_cell(rng, field, fmt, bad_rate) for field in spec["fields"]]
+        if any(prop[0] == "escape character" and prop[1] == "\\" for prop in spec.get("props", [])):
+            # the text peer writes cells verbatim (quotes doubled): under a backslash escape character a backslash
+            # in a cell would have to be escaped, which is the writer's business (C12), not the reader checks'
+            row = [cell.replace("\\", "/") for cell in row]
         if spec.get("encoding", "utf-8") != "utf-8":
             # only what the file's encoding can store
             row = [cell if cell not in EXOTIC_TEXT or _encodable(cell, spec["encoding"]) else "x" for cell in row]
